@@ -34,6 +34,11 @@ func (p posExpr) String() string {
 	if p.Base == "" {
 		return fmt.Sprintf("%d", p.Off)
 	}
+	// canonical: the constant offset is folded into the loop's start (i from 0, buf[33+i] ≡ off from 33, buf[off])
+	var init, stride int64
+	if n, _ := fmt.Sscanf(p.Base, "loop(init=%d,stride=%d)", &init, &stride); n == 2 {
+		return fmt.Sprintf("loop(init=%d,stride=%d)+0", init+p.Off, stride)
+	}
 	return fmt.Sprintf("%s+%d", p.Base, p.Off)
 }
 
@@ -65,6 +70,27 @@ func posOf(v ssa.Value) posExpr {
 	}
 	switch x := v.(type) {
 	case *ssa.BinOp:
+		if x.Op == token.MUL {
+			// (loop(a,s)+off)·k = loop(a·k, s·k) + off·k
+			for _, pr := range [][2]ssa.Value{{x.X, x.Y}, {x.Y, x.X}} {
+				k, ok := constInt(pr[1])
+				if !ok {
+					continue
+				}
+				p := posOf(pr[0])
+				if !p.OK {
+					return posExpr{}
+				}
+				if p.Base == "" {
+					return posExpr{Off: p.Off * k, OK: true}
+				}
+				var init, stride int64
+				if n, _ := fmt.Sscanf(p.Base, "loop(init=%d,stride=%d)", &init, &stride); n == 2 {
+					return posExpr{Base: fmt.Sprintf("loop(init=%d,stride=%d)", init*k, stride*k), Off: p.Off * k, OK: true}
+				}
+				return posExpr{}
+			}
+		}
 		if x.Op == token.ADD {
 			if c, ok := constInt(x.Y); ok {
 				p := posOf(x.X)
@@ -126,6 +152,13 @@ func lanesOf(v ssa.Value, depth int) []lane {
 	}
 	if depth > 10 {
 		return unknown()
+	}
+	// a value handed back by a transparent helper: what the helper returns
+	switch v.(type) {
+	case *ssa.Call, *ssa.Extract:
+		if r := resultOf(v); r != v && widthLanes(r.Type()) == n {
+			return lanesOf(r, depth+1)
+		}
 	}
 	if c, ok := v.(*ssa.Const); ok {
 		if k, ok := constInt(c); ok && k == 0 {
@@ -295,7 +328,7 @@ type byteWrite struct {
 // binary.*.PutUintN calls.
 func encoderWrites(fn *ssa.Function) []byteWrite {
 	var out []byteWrite
-	for _, in := range instrsOf(fn) {
+	for _, in := range instrsDeep(fn) {
 		switch x := in.(type) {
 		case *ssa.Store:
 			ia, ok := x.Addr.(*ssa.IndexAddr)
